@@ -118,15 +118,32 @@ func hOracle03(rules []amcommoncfg.InhibitRule, latest []hSrc03, target model.La
 //vf:thorough unwind=24 decisions=600 paths=3000000
 //vf:expect reach=inhibited reach=not-inhibited reach=gc reach=resolved
 func VerifC03_History() {
-	k := 3
-	if vfTier() > 0 {
-		k = 4
+	hHistory03(3+vfTier(), true)
+}
+
+// VerifC03_Quiet: like VerifC03_History but the verdict is only queried at the end
+// (queries repair the lookup index, so histories without intermediate queries reach
+// other states); one more step.
+//
+//vf:quick unwind=16 decisions=400 paths=400000
+//vf:thorough unwind=24 decisions=600 paths=4000000
+//vf:expect reach=inhibited reach=not-inhibited reach=gc reach=resolved
+func VerifC03_Quiet() {
+	hHistory03(4+vfTier(), false)
+}
+
+func hHistory03(k int, checkEachStep bool) {
+	nRules, nTargets, nSrc := 4, len(hTargets03), 4
+	if !checkEachStep && vfTier() == 0 {
+		// quick tier of the quiet variant: one rule, one target, the two sources that
+		// share their equal labels (the full menus run in the thorough tier)
+		nRules, nTargets, nSrc = 1, 1, 2
 	}
-	cfg := hRules03(vfChoice("rules", 4))
+	cfg := hRules03(vfChoice("rules", nRules))
 	ih := NewInhibitor(nil, cfg, promslog.NewNopLogger(), eventrecorder.Recorder{})
 	mk := marker.NewAlertMarker()
 	ctx := marker.WithContext(context.Background(), mk)
-	target := hTargets03[vfChoice("target", len(hTargets03))]
+	target := hTargets03[vfChoice("target", nTargets)]
 	latest := make([]hSrc03, len(hSources03))
 
 	check := func() {
@@ -152,7 +169,11 @@ func VerifC03_History() {
 	for slot := 0; slot < k; slot++ {
 		vfAdvance(vfSeconds("advance", 0, 3600))
 		now := vfNow()
-		switch op := vfChoice("op", 6); op {
+		op := vfChoice("op", nSrc+2)
+		if op >= nSrc {
+			op += 4 - nSrc
+		}
+		switch op {
 		case 0, 1, 2, 3: // source op fires / is refreshed / resolves
 			a := &types.Alert{}
 			a.Labels = hSources03[op]
@@ -173,6 +194,8 @@ func VerifC03_History() {
 			vfReach("gc")
 		case 5: // only time passes
 		}
-		check()
+		if checkEachStep || slot == k-1 {
+			check()
+		}
 	}
 }
